@@ -49,15 +49,23 @@ def make_case(seed, i, tier):
     if rng.random() < 0.12:
         prof.update(engine="turtlemd", maxlength=2000, steps=8)
         N = 8
+        if mode == "A":
+            # in scope for byte equality only with an order parameter representable at six decimals
+            prof.update(rounded_op=True, allowmaxlength=True, workers=1)
     scn = SC.gen_scenario(rng, prof)
-    if scn["engine"] == "turtlemd" and mode == "A":
+    if scn["engine"] == "turtlemd" and mode == "A" and not scn.get("rounded_op"):
         # real-valued order parameters are stored with six decimals: straight-vs-restart byte
         # equality is outside the stated scope; TurtleMD runs check re-issue (B) and determinism (C)
         mode = "C"
     if mode == "B" and scn["workers"] < 2:
         mode = "A"
         scn["workers"] = 1
-    if mode == "A":
+    if mode == "A" and scn["engine"] == "turtlemd":
+        # real-valued weights: very small accumulated fractions exist right after the start
+        cuts = [rng.choice([1, 1, 2, 2, 3, 5])] if rng.random() < 0.7 else sorted(
+            set(rng.randrange(1, N) for _ in range(2)))
+        case_plan = {"cuts": cuts}
+    elif mode == "A":
         # enumerate single splits by case index, sample longer chains
         if rng.random() < 0.6:
             cuts = [1 + (i % (N - 1))]
@@ -178,6 +186,15 @@ def run(case):
             res = rB
             res["violations"] = viol
             sig = ("C", scn["workers"], tuple(scn["moves"]), tuple(res["sigs"]))
+        # an incarnation that dies of its own exception (not injected) breaks restart equivalence
+        pool = (rA["events"] + rB["events"]) if mode in ("A", "C") else res["events"]
+        for ev in pool:
+            if ev["ev"] == "died" and "injected worker failure" not in ev.get("msg", ""):
+                res["violations"].append(C._viol(
+                    "C06", "restarted_run_died" if ev.get("inc", 0) > 0 else "run_died",
+                    f"incarnation {ev.get('inc')} died: {ev.get('exc')}: {ev.get('msg', '')[:200]} at {ev.get('tb')}",
+                    ev.get("inc"), case))
+                break
         out = C.result_from(res, _hist(case, case["scn"].get("plan", [])),
                             lambda r, c: mode in ("A", "B"))
         out["sig"] = str(sig)
